@@ -88,8 +88,20 @@ Fixpoint le_val (bs : list N) : N :=
   | b :: r => b + 256 * le_val r
   end.
 
-Definition take (k : nat) (bs : list N) : option (list N * list N) :=
-  if Nat.ltb (length bs) k then None else Some (firstn k bs, skipn k bs).
+(* first k bytes and the rest; None if fewer than k are left *)
+Fixpoint take (k : nat) (bs : list N) {struct k} : option (list N * list N) :=
+  match k with
+  | O => Some ([], bs)
+  | S k' =>
+      match bs with
+      | [] => None
+      | b :: r =>
+          match take k' r with
+          | Some (a, r') => Some (b :: a, r')
+          | None => None
+          end
+      end
+  end.
 
 Definition dec_fix (k : nat) (bs : list N) : option (N * list N) :=
   match take k bs with
